@@ -123,6 +123,19 @@ pub fn explore(
     explore_shard(bound, max_points, 0, 1, run)
 }
 
+static SOFT_DEADLINE: std::sync::OnceLock<std::time::Instant> = std::sync::OnceLock::new();
+
+/// Soft wall cap (set by `report::start_watchdog`): once passed, every search loop stops where it
+/// is.  The run then ends with the findings it has (exit 1) or, with none, as a machinery failure
+/// (exit 2: capped without a verdict).  Never reached on the unchanged tree.
+pub fn set_soft_deadline(secs: u64) {
+    let _ = SOFT_DEADLINE.set(std::time::Instant::now() + std::time::Duration::from_secs(secs));
+}
+
+pub fn past_soft_deadline() -> bool {
+    SOFT_DEADLINE.get().is_some_and(|d| std::time::Instant::now() > *d)
+}
+
 /// One of `nshards` disjoint parts of `explore`: the executions are partitioned by the position
 /// of their FIRST deviation (position mod nshards); the deviation-free execution belongs to
 /// shard 0 (the other shards run it once, uncounted, to learn the choice points).  The union of
@@ -138,6 +151,9 @@ pub fn explore_shard(
     stats.executions_by_dev = vec![0; bound.min(8) + 1];
     let mut stack: Vec<Vec<u16>> = vec![vec![]];
     while let Some(prefix) = stack.pop() {
+        if past_soft_deadline() {
+            break;
+        }
         let mut ch = Chooser::new(&prefix, max_points);
         let cont = run(&mut ch);
         assert!(
@@ -199,7 +215,7 @@ pub fn par_for<F: Fn(usize) + Sync>(n: usize, workers: usize, f: F) {
         for _ in 0..workers.max(1).min(n.max(1)) {
             s.spawn(|| loop {
                 let i = next.fetch_add(1, Ordering::Relaxed);
-                if i >= n {
+                if i >= n || past_soft_deadline() {
                     break;
                 }
                 let r = std::panic::catch_unwind(std::panic::AssertUnwindSafe(|| f(i)));
